@@ -77,6 +77,27 @@ func runC03(ctx *Ctx) {
 	for _, k := range []string{"tuple1", "set2", "map1", "setlist"} {
 		c03DoPool(ctx, c03WrapPool("fixed/strings", k, strs), 1)
 	}
+	// 2a. compound members whose hash texts would collide if a delimiter of the hash text could come
+	// out of a string unescaped (a seeded change wrote strings without %q: ["a","b"] and [`a";"b`]
+	// tied in Less and kept their insertion order)
+	{
+		ls := func(ss ...string) cty.Value {
+			vs := make([]cty.Value, len(ss))
+			for i, x := range ss {
+				vs[i] = cty.StringVal(x)
+			}
+			return cty.ListVal(vs)
+		}
+		delim := []cty.Value{ls("a", "b"), ls(`a";"b`), ls("a", "b", "c"), ls(`a";"b`, "c"), ls("a", `b";"c`), ls(`a\`, "b"), ls(`a\";"b`), ls("a;", "b")}
+		c03DoPool(ctx, c03Pool{"fixed/hash-delimiters", delim}, 2)
+		var tups, maps []cty.Value
+		for _, k := range []string{"v", `v";"w`, `v">;<"w`, `v";}{"k":"w`} {
+			tups = append(tups, cty.TupleVal([]cty.Value{cty.StringVal(k), cty.StringVal("z")}))
+			maps = append(maps, cty.MapVal(map[string]cty.Value{"k": cty.StringVal(k)}))
+		}
+		c03DoPool(ctx, c03Pool{"fixed/hash-delimiters:tuple", tups}, 2)
+		c03DoPool(ctx, c03Pool{"fixed/hash-delimiters:map", maps}, 2)
+	}
 	c03DoPool(ctx, c03Pool{"fixed/bools", []cty.Value{cty.True, cty.False, cty.NullVal(cty.Bool)}}, 2)
 	// 2b. the model's copy of strconv's printable-rune table (hash bytes of strings are %q-quoted):
 	// every edge of every range the model claims to know, and random runes inside them
